@@ -6,6 +6,10 @@ import (
 )
 
 var vHarnesses = map[string]func(p []int){
+	"H_C04_lc_block": func(p []int) { H_C04_lc_block(p[0]) },
+	"H_C04_lc_crash": func(p []int) { H_C04_lc_crash(p[0]) },
+	"H_C04_lc_proto": func(p []int) { H_C04_lc_proto(p[0], p[1]) },
+	"H_C04_rank":     func(p []int) { H_C04_rank(p[0], p[1]) },
 	"H_C03_binderiv":    func(p []int) { H_C03_binderiv(p[0], p[1]) },
 	"H_C03_autocorr":    func(p []int) { H_C03_autocorr(p[0], p[1]) },
 	"H_C03_cusum":       func(p []int) { H_C03_cusum(p[0], p[1], p[2]) },
